@@ -143,6 +143,13 @@ def plan_jobs(prop, tier, rnd):
             want = [h for h in pools["T"] if donate_then(h)]
             if want:
                 assets["B1"] = rnd.choice(want)
+        if prop == "C15" and i % 3 == 0 and "M" in pools:
+            # holdings on every account of the alphabet: two holders, one of them on two exchanges (the other's account sorts in between)
+            def spread(h):
+                return {x["a1"] for x in h if x["cls"] == "in"} | {x["a2"] for x in h if x["cls"] == "intra"} >= {11, 21, 12}
+            wide = [h for h in pools["M"] if spread(h)]
+            if wide:
+                assets["B1"] = rnd.choice(wide)
         if prop == "C14" and "T" in pools:
             # every transaction type in every table that takes it, in turn (covering all 14 types does not depend on the seed)
             out_ty = ["sell", "gift", "donate", "fee", "lost", "staking"][i % 6]
